@@ -169,6 +169,11 @@ typecomposite(struct type *t1, struct type *t2)
 {
 	/* XXX: implement 6.2.7 */
 	/* XXX: merge with typecompatible? */
+	if (t1->kind == TYPEARRAY && t2->kind == TYPEARRAY) {
+		/* an array of known constant size wins (not yet recursive) */
+		if ((t1->incomplete || t1->prop & PROPVM) && !t2->incomplete && !(t2->prop & PROPVM))
+			return t2;
+	}
 	return t1;
 }
 
